@@ -170,6 +170,23 @@ func TestC03Layout(t *testing.T) {
 		if !refEqual(got, canon) {
 			fail("decoding reads another layout:\n got  %+v\n want %+v\n payload %x", got, canon, want)
 		}
+		// the payload is what the slice holds, not what happens to lie behind it in the caller's buffer (a payload cut
+		// out of a receive buffer has other frames' bytes there)
+		{
+			big := make([]byte, len(want), len(want)+300)
+			copy(big, want)
+			tail := big[len(want):cap(big)]
+			for i := range tail {
+				tail[i] = byte(0xA1 + i)
+			}
+			got2, rerr2 := safeRead(ti.rw, &message.MessageRaw{ID: ti.msg.GetID(), Payload: big}, v2)
+			if rerr2 != nil {
+				fail("Read of the reference encoding %x failed when the slice has spare capacity: %v", want, rerr2)
+			}
+			if !refEqual(got2, canon) {
+				fail("decoding depends on the bytes behind the payload in the caller's buffer:\n got  %+v\n want %+v\n payload %x", got2, canon, want)
+			}
+		}
 		cls := classesOf(ti.lay)
 		nt := len(cls) > 0
 		if ti.shipped {
